@@ -385,6 +385,11 @@ def _status_returns_from(f, var, solver, b, si):
     return found
 
 
+# libc routines that answer 0 / NULL when they could not do what was asked (no memory involved, but the same discipline: the
+# edge on which they failed must not reach a success return)
+ZERO_MEANS_FAILED = ("strftime", "gmtime_r", "localtime_r", "inet_ntop")
+
+
 def failure_edges(f, acq):
     """(block, truth, successor, call) for every tested acquisition of `f`: the edge taken when the acquisition fails."""
     for b in f.blocks.values():
@@ -394,7 +399,7 @@ def failure_edges(f, acq):
             hit = None
             for op, L, R, Le, Re in cond_atoms(b.cond, truth):
                 ce = Le.strip() if Le is not None else None
-                if ce is not None and ce.cls == "CallExpr" and ce.callee in acq and R == ("c", 0) and op == "==":
+                if ce is not None and ce.cls == "CallExpr" and (ce.callee in acq or ce.callee in ZERO_MEANS_FAILED) and R == ("c", 0) and op == "==":
                     hit = ce
                 # asprintf / vasprintf allocate through an out-parameter and answer -1
                 if ce is not None and ce.cls == "CallExpr" and ce.callee in ("asprintf", "vasprintf") and ((op == "==" and R == ("c", -1)) or (op == "<" and R == ("c", 0))):
@@ -506,7 +511,7 @@ def reported_rule(prog, rep, only_files=None):
                 hit = None
                 for op, L, R, Le, Re in cond_atoms(b.cond, truth):
                     ce = Le.strip() if Le is not None else None
-                    if ce is not None and ce.cls == "CallExpr" and ce.callee in acq and R == ("c", 0) and op == "==":
+                    if ce is not None and ce.cls == "CallExpr" and (ce.callee in acq or ce.callee in ZERO_MEANS_FAILED) and R == ("c", 0) and op == "==":
                         hit = ce
                     # asprintf / vasprintf allocate through an out-parameter and answer -1
                     if ce is not None and ce.cls == "CallExpr" and ce.callee in ("asprintf", "vasprintf") and ((op == "==" and R == ("c", -1)) or (op == "<" and R == ("c", 0))):
